@@ -152,7 +152,9 @@ fn run_on<F: Float, D: Distance<F> + 'static, S: ndarray::Data<Elem = F>>(case: 
         let scale = sorted.last().cloned().unwrap_or(1.0).max(1.0);
 
         // ---------------- k nearest ----------------
-        for k in 0..=n + 2 {
+        // small sets: every k; deep sets (n > 12): the small k, the middle and everything around n
+        let ks: Vec<usize> = if n <= 12 { (0..=n + 2).collect() } else { vec![0, 1, 2, 3, 5, 8, n / 2, n - 1, n, n + 1, n + 2] };
+        for k in ks {
             for (name, ix) in idx.iter() {
                 cnt.evals += 1;
                 if n >= 2 && k >= 1 && k < n {
@@ -493,14 +495,14 @@ fn main() {
          all subsets of <=5 (quick) / <=7 (thorough) points of the 3x3 lattice, their generic-position images (constant jitter table), all subsets of <=4 / <=6 corners of the unit cube, \
          a dimension sweep d in {1,2,3,8,16} over all multisets of <=4 of 5 pool vectors, plus empty / single / all-equal sets; \
          deep trees: the 4x4 lattice minus every set of <=1 / <=2 points, the 5x5 lattice with a duplicated row, 34 / 70 1-D points with duplicates, the 3x3x3 lattice, \
-         each with leaf sizes {default via from_batch, 1, 4, 16} (thorough: + 2, 3, 5, n) and every half-lattice query of the bounding box; \
-         per case: every lattice and half-lattice query + one far query, k = 0..n+2, radii = 0, every distinct query-point distance exactly, \
+         each with leaf sizes {default via from_batch, 1, 4, 16} (thorough: + 2, 3, 5, n; quick: metrics L1 / L2 / Linf only) and every half-lattice query of the bounding box; \
+         per case: every lattice and half-lattice query + one far query, k = 0..n+2 (deep sets with n > 12: k in {0,1,2,3,5,8,n/2,n-1,n,n+1,n+2}), radii = 0, every distinct query-point distance exactly, \
          every midpoint between consecutive distances, below the minimum, beyond the maximum; all three index kinds; the 2-D / 3-D / d-dimensional exact families are additionally handed over as a column-major array and as a reversed-row view of a reversed copy (L1, L2): the answers must be those of the standard layout (k-d tree: or its documented contiguity panic). \
          evaluations = individual queries; non-trivial = k-nearest with 0<k<n on n>=2 points, range queries whose open ball contains some but not all points; \
          distinct by construction of the enumerators.",
     );
     ctx.assume("reference = brute-force distance table in f64 computed from the coordinates as rounded to the subject's float type");
-    ctx.assume("float tolerance for comparing distances: 1e-11 (f64) / 2e-5 (f32) relative to the largest distance; points within that band of a radius may be in or out for the subset oracle, but the three kinds must still agree exactly");
+    ctx.assume("float tolerance for comparing distances: 1e-11 (f64) / 2e-5 (f32) relative to the largest distance; points within that band of a radius may be in or out (counted as indeterminate) - also between the three kinds, which round differently (the ball tree's sqrt-then-square lower bound is one ulp above a point's squared distance for radii such as fl(sqrt 2)); points that are on the radius in exact arithmetic must be excluded by all three kinds");
 
     // ---------------- enumerate cases ----------------
     let mut sets: Vec<(String, Vec<Vec<f64>>, usize)> = Vec::new();
@@ -649,6 +651,10 @@ fn main() {
         leafs.dedup();
         for f in floats {
             for m in metrics {
+                // quick tier: the deep sets run the three exact metrics only (Lp in thorough)
+                if deep && !ctx.thorough() && m.starts_with("Lp") {
+                    continue;
+                }
                 for &leaf in &leafs {
                     cases.push(Case { family: fam.clone(), points: pts.clone(), dim: *d, float: f.into(), metric: m.into(), leaf, queries: queries.clone(), layout: "standard".into() });
                     // other memory layouts of the same matrix (only where they differ: n >= 2, d >= 2)
